@@ -25,6 +25,18 @@ def takes_across_sort_before_group(pg):
     return False
 
 
+def sort_key_dropped(pg):
+    """some key of a sort (or of the sort inside a group) is a computed expression, or a column that is not
+    among the final columns under its own name -- the situation in which the back end has to carry a column
+    the query does not select"""
+    final = set(pg.final_cols or [])
+    for st in pg.steps:
+        for _, e in (st.info.get("keys") or []):
+            if e[0] != "col" or e[2] not in final:
+                return True
+    return False
+
+
 def let_then_window(pg):
     k = pg.meta.get("let_at")
     if not k:
@@ -50,7 +62,7 @@ def classify_common(rec):
             return "oracle-generic-offset"     # generic SQL may use OFFSET without LIMIT; SQLite cannot run it (F27 is repaired for sql.sqlite)
     if v == "panic":
         p = (rec.get("compile") or {}).get("panic", {})
-        if "name of this column has not been to be set" in p.get("msg", "") and "gen_expr.rs" in p.get("loc", ""):
+        if "name of this column has not been to be set" in p.get("msg", "") and "gen_expr.rs" in p.get("loc", "") and sort_key_dropped(rec["program"]):
             return "F29-unnamed-column-panic"
     if v == "sql-err" and re.search(r"no such column: _expr_\d+", str(rec.get("sqlite"))) and re.search(r" AS _expr_\d+", sql):
         return "F24-dangling-generated-alias"
